@@ -263,9 +263,57 @@ def configs(ctx):
     return out
 
 
+def many_destinations(args):
+    """entries for many distinct destinations over the life of one announcer (more than 128, more than 256, ...): each
+    is transmitted once, to its own destination, in a message of its own"""
+    tagsid, total = args
+    from ..vloop import VLoop
+    loop = VLoop().install()
+    seam = RandomSeam(Choice())
+    seam.__enter__()
+    viols = []
+    try:
+        prot = make_sd(loop, timings(CYCLIC_OFFER_DELAY=0, REPETITIONS_MAX=0, SEND_COLLECTION_TIMEOUT=C))
+        want = {}
+        for i in range(total):
+            dest = (f"198.51.{i // 250}.{i % 250 + 1}", 30490)
+            want[i] = dest
+            prot.announcer.queue_send(tagged_entry(tagsid, i), remote=dest)
+            if i % 3 == 2:
+                loop.run_until(loop.time() + 2 * C)  # three destinations collect side by side, then all are finished
+        loop.run_until(loop.time() + 2 * C)
+        seen = {}
+        for t, it, data, addr in prot.transport.sent:
+            msgs = refcodec.dec_sd_datagram(data)
+            ents = [e for m in msgs for e in m["entries"] if e[1] == tagsid]
+            if len({e[2] for e in ents}) > 1:
+                viols.append(("combined", "many-destinations", f"entries {[e[2] - 1 for e in ents]} share one message to {addr}"))
+            for e in ents:
+                tag = e[2] - 1
+                seen.setdefault(tag, []).append(addr)
+        for i, dest in want.items():
+            got = seen.get(i, [])
+            if got != [dest]:
+                disc = "wrong-peer" if got and got[0] != dest else ("never-sent" if not got else "duplicate")
+                viols.append(("destination" if got else "exactly-once", disc + "-many-destinations",
+                              f"entry no. {i} (of {total} destinations used one after the other) queued for {dest}: sent to {got}"))
+                if len(viols) > 5:
+                    break
+    except Exception as e:  # noqa: BLE001
+        viols.append(("no-exception", type(e).__name__ + "-many-destinations", f"{type(e).__name__}: {e}"))
+    finally:
+        seam.__exit__(None, None, None)
+        loop.dispose()
+    return total, viols
+
+
 def check(ctx):
     details, viols = [], []
     samples = core.Samples()
+    for total, vs in core.pmap(many_destinations, [(sids(ctx.seed)[0], n) for n in (64, 130, 260, 600, 2000)], 1):
+        for clause, disc, detail in vs:
+            viols.append(core.Violation(ctx.prop, clause, disc, dict(many_destinations=total, seed=ctx.seed), detail=detail))
+    core.close_pool()
     for name, cfg, depth in configs(ctx):
         res, vs, det = e1.search(ctx, Sys, cfg, depth, name)
         core.close_pool()
@@ -285,4 +333,9 @@ def check(ctx):
 
 
 def replay(ctx, body):
+    if "many_destinations" in body["case"]:
+        _, vs = many_destinations((sids(body["case"].get("seed", ctx.seed))[0], body["case"]["many_destinations"]))
+        for v in vs:
+            print("FAILS:", v)
+        return 1 if vs else 0
     return e1.replay_case(Sys, body)
